@@ -201,6 +201,9 @@ func TestBuffer(t *testing.T) { rapid.Check(t, propBuf) }
 type SeqCase struct {
 	Bufs   []stats.Hex `json:"bufs"`   // contents decoded one after the other
 	Shared bool        `json:"shared"` // all of them are copied into the same backing array before decoding
+	// Stream[i] true: Bufs[i] is not decoded with GetMessage but fed as a (possibly truncated) stream
+	// through FetchNextMessageFrame of the same handler until it reports the end.
+	Stream []bool `json:"stream"`
 }
 
 func checkSeq(c SeqCase, o *stats.Obs) error {
@@ -214,6 +217,28 @@ func checkSeq(c SeqCase, o *stats.Obs) error {
 	shared := make([]byte, max)
 	bad := false
 	for i, b := range c.Bufs {
+		if i < len(c.Stream) && c.Stream[i] {
+			ch := make(chan byte, len(b)+1)
+			for _, x := range b {
+				ch <- x
+			}
+			close(ch)
+			pb := pushback.New(ch)
+			for k := 0; k < len(b)+2; k++ {
+				m, err := h.FetchNextMessageFrame(pb)
+				if m == nil {
+					break
+				}
+				if m.MessageType >= 0 && err == nil {
+					if e := typedOK(m.RawData, m.MessageType); e != nil {
+						o.Key = "fetch-sequence-typed-nonframe"
+						return fmt.Errorf("step %d (stream %x) of a sequence through one handler: %v", i, []byte(b), e)
+					}
+				}
+			}
+			o.Class("stream-step")
+			continue
+		}
 		var in []byte
 		if c.Shared {
 			in = shared[:len(b)]
@@ -244,7 +269,19 @@ func genSeq(t *rapid.T) SeqCase {
 	f := gen.ValidFrame(t, 40)
 	n := rapid.IntRange(2, 5).Draw(t, "n")
 	for i := 0; i < n; i++ {
-		switch rapid.IntRange(0, 4).Draw(t, "step") {
+		c.Stream = append(c.Stream, false)
+		switch rapid.IntRange(0, 7).Draw(t, "step") {
+		case 5: // a short prefix of the current frame (the spare capacity still holds the rest when shared)
+			k := rapid.IntRange(1, min(8, len(f)-1)).Draw(t, "prefix")
+			c.Bufs = append(c.Bufs, f[:k])
+		case 6: // a stream that ends inside the current frame, through the same handler
+			d, _ := gen.Truncate(t, f)
+			pre := gen.ValidFrame(t, 20)
+			c.Bufs = append(c.Bufs, append(append([]byte{}, pre...), d...))
+			c.Stream[len(c.Stream)-1] = true
+		case 7: // a complete stream through the same handler
+			c.Bufs = append(c.Bufs, append(append([]byte{}, f...), gen.Junk(t, true, 10)...))
+			c.Stream[len(c.Stream)-1] = true
 		case 0:
 			c.Bufs = append(c.Bufs, f)
 		case 1, 2: // same type and length, damaged in payload or CRC
@@ -298,3 +335,10 @@ func FuzzBuffer(f *testing.F) {
 }
 
 func TestReplay(t *testing.T) { R.Replay(t) }
+
+func min(a, b int) int {
+	if a < b {
+		return a
+	}
+	return b
+}
